@@ -23,7 +23,7 @@ for ent in cat:
     name, prop = ent["name"], ent["property"]
     if args and name not in args:
         continue
-    wt = f"/tmp/verif-mut-{name}"
+    wt = f"/tmp/verif-mut-{os.getpid()}-{name}"
     subprocess.run(["git", "-C", REPO, "worktree", "remove", "--force", wt], capture_output=True)
     subprocess.check_call(["git", "-C", REPO, "worktree", "add", "-q", "--detach", wt, "HEAD"])
     try:
